@@ -146,3 +146,9 @@ def is_sym(v):
 
 def is_concrete_number(v):
     return isinstance(v, (int, float)) or (isinstance(v, sp.Basic) and v.is_number and not v.has(sp.nan))
+
+
+class AbstractObj:
+    """object known only through its contract: attribute name -> value / python callable(interp, args, kw)"""
+    def __init__(self, tag, members): self.tag = tag; self.members = members
+    def __repr__(self): return 'AbstractObj(%s)' % self.tag
